@@ -629,6 +629,33 @@ def inline_helpers(ct) -> list[str]:
     for m in ct.repo.modules.values():
         for fn in m.functions.values():
             inl.run_function(fn, None, m)
+    # a private helper whose every use was inlined is dead code: rules that enumerate methods must not see it twice
+    inlined_names = {entry.split()[1] for entry in inl.log}
+    if inlined_names:
+        refs: dict[str, int] = {}
+        for m in ct.repo.modules.values():
+            for n in ast.walk(m.tree):
+                if isinstance(n, ast.Attribute) and n.attr in inlined_names:
+                    refs[n.attr] = refs.get(n.attr, 0) + 1
+                elif isinstance(n, ast.Name) and n.id in inlined_names:
+                    refs[n.id] = refs.get(n.id, 0) + 1
+                elif isinstance(n, ast.Constant) and isinstance(n.value, str) and n.value in inlined_names:
+                    refs[n.value] = refs.get(n.value, 0) + 1
+        for name in sorted(inlined_names):
+            if refs.get(name, 0) or not name.startswith("_"):
+                continue
+            for ci in ct.by_qual.values():
+                fn = ci.methods.get(name)
+                if fn is not None:
+                    del ci.methods[name]
+                    ci.node.body = [b for b in ci.node.body if b is not fn] or [ast.Pass()]
+                    inl.log.append(f"{ci.module.relpath}:{fn.lineno} {name} (dead after inlining: dropped)")
+            for m in ct.repo.modules.values():
+                fn = m.functions.get(name)
+                if fn is not None:
+                    del m.functions[name]
+                    m.tree.body = [b for b in m.tree.body if b is not fn]
+                    inl.log.append(f"{m.relpath}:{fn.lineno} {name} (dead after inlining: dropped)")
     return inl.log
 
 
